@@ -227,6 +227,14 @@ def ext_fullmatch(eng, path, args, kwargs):
     return re_fullmatch(eng, path, pat, args[1], _flags(kwargs, args, 2))
 
 
+def ext_match(eng, path, args, kwargs):
+    pat = args[0]
+    if isinstance(pat, str):
+        from .strre import const_match
+        return MaybeMatch(const_match(eng, path, pat, args[1], _flags(kwargs, args, 2)))
+    raise Limitation("re.match with a non-constant pattern")
+
+
 def ext_finditer(eng, path, args, kwargs):
     return finditer(eng, path, args[0], args[1], _flags(kwargs, args, 2))
 
@@ -271,3 +279,4 @@ def install(eng):
     eng.externals["re.finditer"] = ext_finditer
     eng.externals["re.sub"] = ext_sub
     eng.externals["re.purge"] = ext_purge
+    eng.externals["re.match"] = ext_match
